@@ -372,6 +372,10 @@ fn weird() -> impl Strategy<Value = String> {
         Just("/x/\u{0}".to_string()),
         Just(format!("/{}", "a/".repeat(5000))),
         Just("a".repeat(10_000)),
+        // long unmatched routes with a multi-byte character at every small offset (anything that cuts,
+        // echoes or logs a bounded piece of the route meets a character boundary sooner or later)
+        (0usize..400, prop::sample::select(vec!["é", "€", "😀"]), 0usize..40).prop_map(|(n, ch, m)| format!("/{}{}{}", "r".repeat(n), ch, "t".repeat(m))),
+        "\\PC{40,300}",
         "/(a|b|x|svc.Name)(/(a|b|x|\\*t|:t)){0,3}/?",
     ]
 }
@@ -381,7 +385,7 @@ impl Part for Tables {
     type Case = Case;
     fn name(&self) -> &'static str { "tables" }
     fn rule(&self) -> &'static str {
-        "route tables built by generated sequences of route (exact and /x/*tail patterns), add_rpc_service, route_layer, nested merge and merge of an extended clone of the router built so far (shared base), probed with 30 route strings (the table's own paths, one-edit variants: trailing slash added/removed, truncated, extended, case changed, leading slash dropped; plus empty, '//', ':' '*' '%' NUL, unicode, 10^4 chars); tables refused at construction with 'Invalid route' are discarded and counted; non-trivial = table with >=1 wildcard and a layer applied after a merge, or a probe that is one edit away from a registered path; distinct by whole case"
+        "route tables built by generated sequences of route (exact and /x/*tail patterns), add_rpc_service, route_layer, nested merge and merge of an extended clone of the router built so far (shared base), probed with 30 route strings (the table's own paths, one-edit variants: trailing slash added/removed, truncated, extended, case changed, leading slash dropped; plus empty, '//', ':' '*' '%' NUL, unicode, 10^4 chars, long routes with a multi-byte character at every offset up to 400); tables refused at construction with 'Invalid route' are discarded and counted; non-trivial = table with >=1 wildcard and a layer applied after a merge, or a probe that is one edit away from a registered path; distinct by whole case"
     }
     fn strategy(&self, _t: Tier) -> BoxedStrategy<Case> {
         let probe = prop_oneof![
@@ -445,11 +449,11 @@ impl Part for OverTheWire {
     type Case = WireCase;
     fn name(&self) -> &'static str { "over-the-wire" }
     fn rule(&self) -> &'static str {
-        "a network whose service is a Router with an exact route, a wildcard route and the three GENERATED rpc services of the C17 family (12 methods) - or, in 3 of 10 cases, one of the generated servers serving directly without a Router; a remote peer sends 12 requests with generated route strings: the methods' own routes, edits of them (segment inserted, method repeated, other/unknown service prefix, trailing slash, case, missing leading slash, doubled slash, suffix, bare service prefix, the prefix repeated, the bare method name) and odd strings (empty, no slash, '//', NUL and control characters, unicode, 10^4 chars); oracle: every request gets a response (never a transport error); the handler method whose route equals the string runs exactly once, the exact/wildcard services answer theirs, and everything else gets NotFound and runs nothing; non-trivial = case with an edited method route or an odd string; distinct by case"
+        "a network whose service is a Router with an exact route, a wildcard route and the three GENERATED rpc services of the C17 family (12 methods) - or, in 3 of 10 cases, one of the generated servers serving directly without a Router; a remote peer sends 12 requests with generated route strings: the methods' own routes, edits of them (segment inserted, method repeated, other/unknown service prefix, trailing slash, case, missing leading slash, doubled slash, suffix, bare service prefix, the prefix repeated, the bare method name) and odd strings (empty, no slash, '//', NUL and control characters, unicode, 10^4 chars, long routes with a multi-byte character at every offset up to 400); oracle: every request gets a response (never a transport error); the handler method whose route equals the string runs exactly once, the exact/wildcard services answer theirs, and everything else gets NotFound and runs nothing; non-trivial = case with an edited method route or an odd string; distinct by case"
     }
     fn strategy(&self, _t: Tier) -> BoxedStrategy<WireCase> {
         let probe = prop_oneof![
-            3 => (0u8..12, 0u8..18, prop_oneof![Just("v2".to_string()), Just("x".to_string()), "[a-zA-Z.]{0,6}"]).prop_map(|(m, edit, extra)| WireProbe::Method { m, edit, extra }),
+            3 => (0u8..13, 0u8..18, prop_oneof![Just("v2".to_string()), Just("x".to_string()), "[a-zA-Z.]{0,6}"]).prop_map(|(m, edit, extra)| WireProbe::Method { m, edit, extra }),
             1 => weird().prop_map(WireProbe::Raw),
             1 => prop::sample::select(vec!["/exact", "/exact/", "/wild/", "/wild/a/b", "/wild", "/Exact"]).prop_map(|s| WireProbe::Raw(s.to_string())),
         ];
